@@ -1447,6 +1447,7 @@ func (x *Exec) typeTag(t types.Type) Term {
 	name := "tag!" + typeName(t)
 	c := x.Reg.DeclareConst(name, SInt)
 	x.Reg.Axiom("tagpos:"+name, Gt(c, IntT(0)).S)
+	defer x.declareTagDistinct2(t)
 	// distinctness: tags are numbered lazily
 	return c
 }
@@ -1486,7 +1487,21 @@ func (x *Exec) makeInterface(st *State, v Val, from, to types.Type) Val {
 
 var tagOrder []string
 
+func (x *Exec) declareTagDistinct2(t types.Type) {
+	name := "tag!" + typeName(t)
+	for _, o := range tagOrder {
+		if o == name {
+			return
+		}
+	}
+	for _, o := range tagOrder {
+		x.Reg.Axiom("tagne:"+o+":"+name, "(not (= "+sym(o)+" "+sym(name)+"))")
+	}
+	tagOrder = append(tagOrder, name)
+}
+
 func (x *Exec) declareTagDistinct(t types.Type) {
+	x.typeTag(t)
 	name := "tag!" + typeName(t)
 	for _, o := range tagOrder {
 		if o == name {
